@@ -2151,13 +2151,22 @@ class Context:
         )
 
     def _set_peer_certificate(self, certificate: Certificate) -> None:
-        self._peer_certificate = x509.load_der_x509_certificate(
-            certificate.certificates[0][0]
-        )
-        self._peer_certificate_chain = [
-            x509.load_der_x509_certificate(certificate.certificates[i][0])
-            for i in range(1, len(certificate.certificates))
-        ]
+        if not certificate.certificates:
+            raise AlertDecodeError("Certificate message has no certificates")
+        try:
+            self._peer_certificate = x509.load_der_x509_certificate(
+                certificate.certificates[0][0]
+            )
+            self._peer_certificate_chain = [
+                x509.load_der_x509_certificate(certificate.certificates[i][0])
+                for i in range(1, len(certificate.certificates))
+            ]
+            # Make sure we can use the public key.
+            self._peer_certificate.public_key()
+        except Exception as exc:
+            # The X.509 parser raises a variety of exception types when
+            # presented with malformed certificates.
+            raise AlertBadCertificate("Certificate could not be parsed") from exc
 
     def _set_state(self, state: State) -> None:
         if self.__logger:
